@@ -56,6 +56,11 @@ type Director struct {
 
 var current atomic.Value // *Director
 
+// Tainted is set once a watchdog has fired in this process: an instance may
+// have been abandoned with its goroutines alive, so nothing that presumes
+// finished cases to be dead (ReclaimLeakedMaps) may run any more.
+var Tainted int32
+
 type dirBox struct{ d *Director }
 
 // retired remembers the collection / store objects of instances a director
@@ -297,6 +302,7 @@ func (d *Director) waitLocked(pred func() bool) bool {
 	defer t.Stop()
 	for !pred() {
 		if time.Now().After(deadline) {
+			atomic.StoreInt32(&Tainted, 1)
 			return false
 		}
 		d.cond.Wait()
